@@ -1033,7 +1033,7 @@ class Parser(ABC):
             return
         for model in models:  # noqa: PLR1702
             for model_field in model.fields:
-                if not model_field.default:
+                if model_field.default is None:
                     continue
                 for data_type in model_field.data_type.all_data_types:
                     if data_type.reference and isinstance(data_type.reference.source, Enum):  # pragma: no cover
